@@ -4,7 +4,7 @@
    W: static abstract wiki, M: metabook (title, optional revision id), L: API batch size (any nat; L = 0 is
    treated as 1), fi: fetch images (false = the no-images option), sched: ANY sequence of scheduling decisions
    (which pending call completes next, whether the dispatcher finds the API idle).  The model is that of the
-   Fetcher with the proposed fixes /verif/fixes/C11-*.diff. *)
+   Fetcher as of the C11 fix commits in /repo (4906af9 8808eaf 8d69ad3 3ee1a3d = /verif/fixes/C11-*.diff). *)
 From Coq Require Import List NArith Bool.
 From MW Require Import C11.Model C11.Proofs C11.Proofs2 C11.Proofs3 C11.ProofsFuel.
 Import ListNotations.
